@@ -667,11 +667,14 @@ class C14(Check):
         # operations, relative to mag (cancellation covered)
         if abs(vd - va) > 1e-11 * mag + 1e-300:
             return V("(v) value() of the Evaluation result differs from the double result", [vd, va])
+        # the oracle's (p, r) may differ from the library's node by one rounding of the unit factor each: the value
+        # then moves by |df/dp| p eps + |df/dr| r eps (a few of them)
+        pos = 8 * EPS * (abs(dp) * q.p + abs(dr) * abs(q.r))
         # ---- (i) node exactness / closed forms / (iv) saturation pressure
         if q.exp is not None:
             # Rs/Rv nodes may be exactly 0: a pressure that differs from the library's node by one rounding of the
             # unit factor moves the interpolant by slope*p*1e-16 <= column maximum * (p/dp <= 1e4) * 1e-16
-            if abs(vd - q.exp) > q.tol * abs(q.exp) + 1e-11 * q.scale + 1e-300:
+            if abs(vd - q.exp) > q.tol * abs(q.exp) + 1e-11 * q.scale + pos + 1e-300:
                 if q.fn in (PSAT, C_PSAT):
                     return V("(iv) saturationPressure(Rs_sat(p)) != p inside the table", q.exp, key=q.key)
                 if q.where.startswith(("pvtw", "pvcdo")):
@@ -681,7 +684,7 @@ class C14(Check):
         # ---- (ii) bracketing inside a 1-D table segment
         if q.lo is not None:
             # 1e-12 slack: both ends are reproduced to ~1 ulp by a linear interpolant / a ratio of two of them
-            s = 1e-12 * max(abs(q.lo), abs(q.hi))
+            s = 1e-12 * max(abs(q.lo), abs(q.hi)) + pos
             if not (q.lo - s <= vd <= q.hi + s):
                 return V("(ii) value between two adjacent nodes leaves the interval of the node values", [q.lo, q.hi])
             ctx.label("checked:bracket")
